@@ -18,7 +18,7 @@ META = {
         "T4 a Python Lock excludes, Event.set/wait/is_set are atomic, a thread blocked in Event.wait resumes after set (the simulator's shims implement exactly this)",
         "harness/sim.py scheduler and the mapping from primitive events to model actions (inner-lock section in acquire -> enq, Event.wait return -> wake, in release -> rel, in __exit__ -> brk)",
     ],
-    "assumptions": ["one request = one `with lock:` of one thread; reset() is not exercised"],
+    "assumptions": ["one request = one `with lock:` of one thread; reset() is outside the Lock model and exercised on the implementation alone (lock.reset component)"],
 }
 
 
@@ -51,6 +51,15 @@ def run_lock_program(prog, schedule=None, seed=0, counter=False):
                     r = ti * 100 + j
                     sim.tls.req = r
                     try:
+                        if body == "reset":
+                            # somebody tries to put a broken lock back into service
+                            try:
+                                lock.reset()
+                                cs_log.append(("reset_ok", r))
+                            except OrderedLockError:
+                                cs_log.append(("reset_refused", r))
+                            outcomes[r] = "doneOk"
+                            continue
                         if counter:
                             values[r] = ctr.increment()
                             outcomes[r] = "doneOk"
@@ -91,7 +100,9 @@ def run_lock_program(prog, schedule=None, seed=0, counter=False):
         if r is None:
             continue
         if ev["op"] == "lock.acquire" and ev["obj"].startswith("Lock:__init__"):
-            if ev["fn"] == "acquire":
+            if ev["fn"] == "reset":
+                acts.append(["reset", r])
+            elif ev["fn"] == "acquire":
                 acts.append(["enq", r])
             elif ev["fn"] == "release":
                 acts.append(["rel", r])
@@ -144,6 +155,41 @@ def oracle(ctx, prog, res, component):
         ctx.violate("C19.never_wedged", case, {"unfinished": missing}, component, kind="schedule")
 
 
+def oracle_reset(ctx, prog, res, component):
+    """Programs in which a thread calls reset() (not in the Lock model: judged on the implementation alone).  Whatever
+    reset() does, nobody blocks for ever, the critical sections exclude each other, and every acquirer that was waiting when
+    the holder left with its exception gets the ordered-lock error."""
+    case = {"prog": prog, "decisions": res["decisions"]}
+    if res["hung"] or res["limit"]:
+        ctx.violate("C19.never_wedged", case, {"hung": res["hung"], "limit": res["limit"]}, component, kind="schedule")
+        return
+    depth = 0
+    for kind, r in res["cs_log"]:
+        if kind in ("in", "out"):
+            depth += 1 if kind == "in" else -1
+            if depth not in (0, 1):
+                ctx.violate("C19.mutex", case, {"cs_log": res["cs_log"]}, component, kind="schedule")
+                return
+    acts = res["acts"]
+    brk = next((n for n, a in enumerate(acts) if a[0] == "brk"), None)
+    if brk is not None:
+        entered_before = set()
+        for kind, r in res["cs_log"]:
+            if kind == "in":
+                entered_before.add(r)
+            if kind == "out" and r == acts[brk][1]:
+                break
+        waiting = [a[1] for a in acts[:brk] if a[0] == "enq" and a[1] not in entered_before and a[1] != acts[brk][1]]
+        ins = [r for kind, r in res["cs_log"] if kind == "in"]
+        for r in waiting:
+            if r in ins:
+                ctx.violate("C19.no_entry_after_break", case, {"req": r, "entered_although_waiting_at_the_break": True, "cs_log": res["cs_log"]},
+                            component, kind="schedule")
+            elif res["outcomes"].get(r) != "lockErr":
+                ctx.violate("C19.break_waiters_get_lock_error", case, {"req": r, "outcome": res["outcomes"].get(r), "cs_log": res["cs_log"]},
+                            component, kind="schedule")
+
+
 def oracle_counter(ctx, prog, res, component):
     case = {"prog": prog, "decisions": res["decisions"], "counter": True}
     if res["hung"] or res["limit"]:
@@ -180,6 +226,11 @@ def compare(ctx, prog, res, component, counter=False):
 
 def one(ctx, prog, schedule=None, seed=0, counter=False, component="lock"):
     res = run_lock_program(prog, schedule=schedule, seed=seed, counter=counter)
+    if any(b == "reset" for t in prog for b in t):
+        oracle_reset(ctx, prog, res, component)
+        ctx.case((str(prog), tuple(res["decisions"])))
+        ctx.count("with_reset")
+        return res
     (oracle_counter if counter else oracle)(ctx, prog, res, component)
     compare(ctx, prog, res, component, counter)
     nontriv = res["switches"] >= 3 or any(o == "lockErr" for o in res["outcomes"].values())
@@ -215,6 +266,11 @@ def run(ctx):
         k = ctx.rng.choice([2, 3, 4, 5])
         prog = [["ok"] * ctx.rng.choice([1, 2, 3]) for _ in range(k)]
         one(ctx, prog, seed=ctx.rng.randrange(1 << 30), counter=True, component="lock.counter")
+    # a thread that calls reset() while others are still queued behind a holder that left with an exception
+    for i in range(ctx.scale(2000, 20000)):
+        k = ctx.rng.choice([1, 2, 2, 3])
+        prog = [[ctx.rng.choice(["raise", "raiseB"])]] + [["ok"] * ctx.rng.choice([1, 2]) for _ in range(k)] + [["reset"] * ctx.rng.choice([2, 3, 4])]
+        one(ctx, prog, seed=ctx.rng.randrange(1 << 30), component="lock.reset")
 
 
 def search(ctx):
